@@ -29,6 +29,8 @@ use crate::dns::outquery;
 
 #[cfg(test)]
 mod test;
+#[cfg(erbium_verif)]
+pub mod verif;
 
 lazy_static::lazy_static! {
     static ref DNS_CACHE: prometheus::IntCounterVec =
